@@ -145,7 +145,9 @@ func TestC17(t *testing.T) {
 		if c.Avoid("yaml.format_types") {
 			stripFormats(c, f)
 		}
-		docs.AddDefaults(rt, f.Root, 0.3, o, func(n *model.Node) bool { return defaultAllowed(c, n) })
+		dopts := *o
+		dopts.MaxArr = 8
+		docs.AddDefaults(rt, f.Root, 0.3, &dopts, func(n *model.Node) bool { return defaultAllowed(c, n) })
 		cfg := baseConfig()
 		cfg.ExtraImports = true
 		cs := caseOf(cfg, []string{f.RelPath}, f)
